@@ -57,6 +57,17 @@ void ares_cancel(ares_channel_t *channel)
       goto done;                        /* LCOV_EXCL_LINE: OutOfMemory */
     }
 
+    /* Unlink every query being cancelled from its connection, the timeout
+     * index and the query id index before any callback runs.  A callback may
+     * start a new query; if sending it fails, the connection is closed and
+     * everything still queued on it is requeued or ended, which would
+     * otherwise complete and free queries that are about to be cancelled
+     * below. */
+    for (node = ares_llist_node_first(list_copy); node != NULL;
+         node = ares_llist_node_next(node)) {
+      ares_query_unlink(ares_llist_node_val(node));
+    }
+
     node = ares_llist_node_first(list_copy);
     while (node != NULL) {
       ares_query_t *query;
